@@ -187,6 +187,8 @@ static _Atomic long ms_raises_begun, ms_raise_ret1, ms_waits_returned, ms_waits_
 static long ms_target;
 static int ms_mode;  // 0 ping-pong exact, 1 storm
 static _Atomic int ms_stop;
+static fiber_signal_t ms_ack;  // exact mode: each returned wait raises it, the single raiser waits for it (blocking, so a
+                               // dropped waiter leaves everybody blocked = logical quiescence)
 
 static void* ms_waiter(void* a) {
   fb_slot_t* s = (fb_slot_t*)a;
@@ -202,6 +204,7 @@ static void* ms_waiter(void* a) {
       vp_violation("C20", "msignal:released-without-raise", "trial %d: %ld waits have returned but only %ld raises have begun (one raise released two waiters, or a waiter left without a raise)",
                    trial, w, r);
     atomic_fetch_add(&ms_acks, 1);
+    if (!ms_mode) fiber_signal_raise(&ms_ack);
     if ((vp_rand(&s->rng) & 3) == 0) fiber_yield();
   }
   return NULL;
@@ -213,10 +216,8 @@ static void* ms_raiser_pingpong(void* a) {
     atomic_fetch_add(&ms_raises_begun, 1);
     if (fiber_multi_signal_raise(&ms)) atomic_fetch_add(&ms_raise_ret1, 1);
     // exactly one wait must return for this raise (either woken now, or the next wait finds it raised)
-    atomic_store(&s->where, "C20 waiting for the wait released by a raise");
-    while (atomic_load(&ms_acks) < i) fiber_yield();
-    atomic_store(&s->where, (const char*)0);
-    vp_progress();
+    // exactly one wait must return for this raise (either woken now, or the next wait finds it raised)
+    while (atomic_load(&ms_acks) < i) FB_BLOCKING(s, "C20 wait for the waiter released by a multi-signal raise", fiber_signal_wait(&ms_ack));
   }
   return NULL;
 }
@@ -263,6 +264,7 @@ static void* root(void* x) {
       const long q = 20 + (long)(vp_rand(&rng) % 150);
       ms_target = q * W;
       fiber_multi_signal_init(&ms);
+      fiber_signal_init(&ms_ack);
       atomic_store(&ms_raises_begun, 0);
       atomic_store(&ms_raise_ret1, 0);
       atomic_store(&ms_waits_returned, 0);
